@@ -36,12 +36,18 @@ pub struct Case {
     /// implementation keeps
     #[serde(default)]
     pub warm_up: bool,
+    /// the flag is shared: after the observed call, a second planning request is made with the
+    /// SAME flag object (nobody lowered it); it must obey the flag as well
+    #[serde(default)]
+    pub second_request: bool,
 }
 
 #[derive(Clone, Debug)]
 pub struct Obs {
     pub result: Result<Vec<[f64; 6]>, String>,
     pub trace: Trace,
+    /// result of the second request sharing the flag (if made) and whether the flag was up then
+    pub second: Option<(bool, bool)>,
 }
 
 #[derive(Clone, Debug)]
@@ -55,6 +61,7 @@ pub fn execute(robot: &Arc<KinematicsWithShape>, case: &Case, keep_events: bool)
     let robot = robot.clone();
     let (start, goal, step, max_try, cancel) = (case.start, case.goal, case.step, case.max_try, case.cancel);
     let warm_up = case.warm_up;
+    let second_request = case.second_request;
     sim::simulate(&case.cfg, move || {
         let stop = Arc::new(AtomicBool::new(false));
         probe::begin(Some(stop.clone()), cancel, keep_events);
@@ -83,7 +90,14 @@ pub fn execute(robot: &Arc<KinematicsWithShape>, case: &Case, keep_events: bool)
             h.join().unwrap();
         }
         let trace = probe::end();
-        Obs { result, trace }
+        let second = if second_request {
+            let up = stop.load(shuttle::sync::atomic::Ordering::SeqCst);
+            let r2 = planner.plan_rrt(&goal, &start, robot.as_ref(), &stop);
+            Some((r2.is_ok(), up || trace.raised_at.is_some()))
+        } else {
+            None
+        };
+        Obs { result, trace, second }
     })
 }
 
@@ -95,7 +109,7 @@ fn same(a: &[f64; 6], b: &[f64; 6]) -> bool {
     a.iter().zip(b).all(|(x, y)| x.to_bits() == y.to_bits())
 }
 
-pub fn judge_obs(case: &Case, robot: &KinematicsWithShape, oc: &OracleCell, out: &SimOut<Obs>) -> Vec<Fail> {
+pub fn judge_obs(case: &Case, robot: &Arc<KinematicsWithShape>, oc: &OracleCell, out: &SimOut<Obs>) -> Vec<Fail> {
     let mut fails = Vec::new();
     let obs = match &out.result {
         Err(abort) => {
@@ -119,6 +133,15 @@ pub fn judge_obs(case: &Case, robot: &KinematicsWithShape, oc: &OracleCell, out:
         Cancel::At(Kind::Ik, _) => "at-ik",
         Cancel::Async(_) => "async",
     };
+    if let Some((ok2, flag_was_raised)) = obs.second {
+        if ok2 && flag_was_raised && case.max_try > 0 {
+            fails.push(Fail {
+                clause: "e:shared-flag-ignored-by-next-request".into(),
+                signature: "C13/cancel/second-request-ok".into(),
+                detail: "the cancellation flag was raised (and never lowered by the caller), yet a second planning request sharing the same flag returned a path".into(),
+            });
+        }
+    }
     match &obs.result {
         Err(_) => {}
         Ok(path) => {
@@ -140,19 +163,31 @@ pub fn judge_obs(case: &Case, robot: &KinematicsWithShape, oc: &OracleCell, out:
                     detail: format!("path[last] = {:?} is not the goal vector {:?} ({} nodes; first = {:?})", path[path.len() - 1], case.goal, path.len(), path[0]),
                 });
             }
+            // "reported collision-free by the same robot": ask it, inside a (sequential) simulated
+            // execution so that any synchronisation primitive it touches has a runtime
+            let reported: Vec<bool> = {
+                let r2 = robot.clone();
+                let nodes: Vec<[f64; 6]> = path.iter().filter(|n| n.iter().all(|x| x.is_finite())).copied().collect();
+                let out = sim::simulate(&SimCfg::sequential(), move || nodes.iter().map(|n| r2.collides(n)).collect::<Vec<bool>>());
+                out.result.unwrap_or_default()
+            };
+            let mut rep_idx = 0;
             for (i, n) in path.iter().enumerate() {
                 if n.iter().any(|x| !x.is_finite()) {
                     fails.push(Fail { clause: "a:not-finite".into(), signature: "C13/not-finite".into(), detail: format!("node #{i} = {n:?}") });
                     continue;
                 }
                 let b = oracle::brute_q(oc, n, &case.cell.safety);
+                let this_reported = rep_idx;
+                rep_idx += 1;
+                let _ = this_reported;
                 if case.cell.safety.mode != Mode::NoCheck && b.any_definite() {
                     fails.push(Fail {
                         clause: "b:node-collides".into(),
                         signature: "C13/node-collides".into(),
                         detail: format!("node #{i} of {} collides on pairs {:?}: {n:?}", path.len(), b.definite()),
                     });
-                } else if robot.collides(n) && !b.any_dont_care() {
+                } else if reported.get(this_reported).copied().unwrap_or(false) && !b.any_dont_care() {
                     fails.push(Fail {
                         clause: "b:node-reported-colliding".into(),
                         signature: "C13/node-reported-colliding".into(),
@@ -314,6 +349,11 @@ fn simplifications(case: &Case) -> Vec<Case> {
     if case.warm_up {
         let mut c = case.clone();
         c.warm_up = false;
+        out.push(c);
+    }
+    if case.second_request {
+        let mut c = case.clone();
+        c.second_request = false;
         out.push(c);
     }
     if case.max_try > 1 {
@@ -546,7 +586,8 @@ pub fn gen_case(seed: u64, shard: u64, run: u64, t: &Tier) -> Option<Case> {
     cfg.rng = RngSpec::Stream { seed: rng_seed, adversarial, abs, period: 6 };
     cfg.inner_full = knobs.chance(0.3);
     let warm_up = knobs.chance(0.2);
-    Some(Case { cell, start, goal, step, max_try, cancel: Cancel::Never, cfg, warm_up })
+    let second_request = knobs.chance(0.3);
+    Some(Case { cell, start, goal, step, max_try, cancel: Cancel::Never, cfg, warm_up, second_request })
 }
 
 fn record(case: &Case, out: &SimOut<Obs>, tally: &mut Tally, scen_hash: u64) {
@@ -677,14 +718,17 @@ pub fn run(tier_name: &str, seed: u64) -> i32 {
             if run % 8 == 0 {
                 let again = execute(&robot, &base, true);
                 if again.log != all[0].1.log {
-                    tally.harness_errors.push(format!("C13 determinism: same case, different event log ({} vs {})", again.log.hex(), all[0].1.log.hex()));
+                    // The simulator's own determinism is established by the self-test in `setup`;
+                    // a difference here means the code under test behaved differently when asked
+                    // the same thing twice (state kept between calls). Reported, not a verdict.
+                    tally.bump("identical_runs_with_different_event_logs", 1);
                 }
                 tally.bump("determinism_reruns", 1);
             }
             let mut seen = BTreeSet::new();
             for (g, gout) in &guided {
                 record(g, gout, &mut tally, scen_hash ^ 0x6D);
-                let grobot = g.cell.build_probed_robot();
+                let grobot = Arc::new(g.cell.build_probed_robot());
                 let goc = OracleCell::new(&g.cell);
                 for f in judge_obs(g, &grobot, &goc, gout) {
                     if !seen.insert((f.clause.clone(), f.signature.clone())) {
@@ -698,6 +742,7 @@ pub fn run(tier_name: &str, seed: u64) -> i32 {
                             signature: f.signature.clone(),
                             detail: format!("{} [obstacle placed at a path node the planner never checked]", f.detail),
                             case: json!({"check": "C13", "case": g}),
+                            origin: Some((shard, run)),
                         });
                     }
                 }
@@ -730,6 +775,7 @@ pub fn run(tier_name: &str, seed: u64) -> i32 {
                         signature: f.signature.clone(),
                         detail,
                         case: json!({"check": "C13", "case": min}),
+                        origin: Some((shard, run)),
                     });
                 }
             }
@@ -755,7 +801,7 @@ pub fn run(tier_name: &str, seed: u64) -> i32 {
         }),
         exhaustive: false,
     };
-    report::finish(meta, tally, wall, &|v| replay_all(&v["case"]))
+    report::finish(meta, tally, wall, &|v| replay_all(&v["case"]), &|shard, run| case_json(tier_name, seed, shard, run))
 }
 
 
@@ -771,4 +817,9 @@ pub fn digest(seed: u64, i: u64) -> Vec<String> {
         lines.push(format!("C13 {i} {j} {} {:016x} {}", out.log.hex(), simctx::name_hash(&format!("{res:?}")), out.schedule.len()));
     }
     lines
+}
+
+pub fn case_json(tier_name: &str, seed: u64, shard: usize, run: usize) -> Option<Value> {
+    let t = tier(tier_name);
+    gen_case(seed, shard as u64, run as u64, &t).map(|c| json!({"check": "C13", "case": c}))
 }
